@@ -94,6 +94,13 @@ enum Action {
         #[debug("reply")]
         reply: oneshot::Sender<usize>,
     },
+    /// Verification hook: which kind of transaction the store currently holds.
+    #[cfg(feature = "verif-hooks")]
+    #[display("VerifTransactionKind")]
+    VerifTransactionKind {
+        #[debug("reply")]
+        reply: oneshot::Sender<&'static str>,
+    },
 }
 
 #[derive(derive_more::Debug, strum::Display)]
@@ -526,6 +533,15 @@ impl SyncHandle {
         Ok(rx.await?)
     }
 
+    /// Verification hook: which kind of transaction ("none", "read" or "write") the store held
+    /// by the actor currently has open. Explorers put it into their canonical state.
+    #[cfg(feature = "verif-hooks")]
+    pub async fn verif_transaction_kind(&self) -> Result<&'static str> {
+        let (reply, rx) = oneshot::channel();
+        self.send(Action::VerifTransactionKind { reply }).await?;
+        Ok(rx.await?)
+    }
+
     pub async fn list_authors(
         &self,
         reply: mpsc::Sender<RpcResult<AuthorListResponse>>,
@@ -724,6 +740,10 @@ impl Actor {
             }
             #[cfg(test)]
             Action::DebugTasksLen { reply } => send_reply(reply, self.tasks.len()),
+            #[cfg(feature = "verif-hooks")]
+            Action::VerifTransactionKind { reply } => {
+                send_reply(reply, self.store.verif_transaction_kind())
+            }
             Action::ImportAuthor { author, reply } => {
                 let id = author.id();
                 send_reply(reply, self.store.import_author(author).map(|_| id))
